@@ -6,6 +6,7 @@ RNG       the generator is seeded from the seed parameter; it draws n_samples in
           data; each member is fitted on the resample and projects the ORIGINAL data
 SIGN      the alignment sign (sign of the correlation of member and model scores along samples)
           multiplies both the member's components and its scores; members are labelled 1..n_bootstraps
+MEMBER    the member model centres the resample and applies no scaling of its own (effective constructor arguments)
 OWN       the model's arrays are stored as copies (as C14)
 """
 
@@ -55,6 +56,39 @@ def check(chk):
     for name in ("sample_name", "feature_name"):
         chk.check(name in kw and from_model_attr(kw[name], name), "NAMES.member", fit, ctors[0], construct=f"member EOF({name}=model.{name})",
                   why=f"member models are built with the default {name}: their internals no longer line up with the model's data")
+    # MEMBER.config: a member is an EOF analysis of the resample of the model's PREPROCESSED samples: the member model
+    # centres the resample (a resample of centred data has its own non-zero mean; explained variance and total variance
+    # are only comparable on the centred matrix) and applies no further scaling.  The effective value of each switch is
+    # the argument of the constructor call, else the constructor's default.
+    efn = next(t.fn for t in ctx.resolve_call(ctors[0]) if t.fn is not None and t.fn.name == "__init__")
+    bound = bind_args(efn, ctors[0])
+    a = efn.node.args
+    pos = a.posonlyargs + a.args
+    defaults = {x.arg: d for x, d in zip(pos[len(pos) - len(a.defaults):], a.defaults)}
+    defaults.update({x.arg: d for x, d in zip(a.kwonlyargs, a.kw_defaults) if d is not None})
+    has_star = any(k.arg is None for k in ctors[0].keywords) or any(isinstance(x, ast.Starred) for x in ctors[0].args)
+
+    def effective(name):
+        e = bound.get(name, None if has_star else defaults.get(name))
+        if e is None:
+            return None
+        vals = {q.atom.node.value for q in ff.paths(e, spine_only=True) if q.atom.kind == "const" and not q.ops and isinstance(getattr(q.atom.node, "value", None), bool)}
+        if isinstance(e, ast.Constant) and isinstance(e.value, bool):
+            return e.value
+        nonconst = [q for q in ff.paths(e, spine_only=True) if not (q.atom.kind == "const" and not q.ops)]
+        return next(iter(vals)) if len(vals) == 1 and not nonconst else None
+
+    for name, want in (("center", True), ("standardize", False), ("use_coslat", False)):
+        if name not in defaults and name not in bound:
+            continue
+        if has_star and name not in bound:
+            chk.note(f"MEMBER.config: {name} may be passed through * / ** arguments of the member constructor; not decided")
+            continue
+        got = effective(name)
+        chk.check(got is want, "MEMBER.config", fit, ctors[0], construct=f"member EOF: {name} is {want}",
+                  why=f"the member model's {name} is {'not decidable / taken from elsewhere' if got is None else got}: a member must centre the resample itself and must not "
+                      f"rescale the model's already preprocessed samples, whatever the model's own configuration (explained variance would exceed the member's total variance / "
+                      f"the members would no longer be EOF analyses of the resample)")
     fits = [c for c in calls_in(fit) if isinstance(c.func, ast.Attribute) and c.func.attr == "fit" and any(t.fn is not None for t in ctx.resolve_call(c))]
     chk.require(len(fits) == 1, "EOFBootstrapper.fit: member fit call vanished")
     b = {}
